@@ -3,6 +3,7 @@ import TinyFlux.Mirror.Ops
 import TinyFlux.Mirror.Reads
 import TinyFlux.Mirror.Closed
 import TinyFlux.Mirror.DbSearch
+import TinyFlux.Mirror.DbGet
 /-!
 # C01 over the translated source: the leaf searches of `tinyflux/index.py`
 
@@ -113,5 +114,23 @@ theorem translated_search_closed (norm : Point → Point) (g : DSelf) (q : Query
 theorem model_search_is_the_models_step (s : State) (q : Query) (m : Option String) (sorted : Bool) :
     (s.step (.search q m sorted)).2 = State.outOf (modelSearch s.readOp q m sorted) (fun l => .points l) :=
   model_search_is_step s q m sorted
+
+/-- `TinyFlux.get` of database.py as translated (it leaves its loop at the first point found; `None` when there is none):
+    the first element of what the Model's `found` computes (`model_get_is_the_models_step`), whenever the Model's evaluation
+    does not raise on a later row — over the Model's and over the translated `Index.search` -/
+theorem translated_get (norm : Point → Point) (g : DSelf) (q : Query) (m : Option String) (r : Option Point)
+    (h : modelGet (absDB norm g) q m = .ok r) :
+    DatabaseImpl.get modelExt g q m = .ok r :=
+  db_get_ok norm g q m r h
+
+theorem translated_get_closed (norm : Point → Point) (g : DSelf) (q : Query) (m : Option String) (r : Option Point)
+    (hg : GWF g._index) (hts : g._index._timestamps.length = g._index._storage_pos_sorted_by_ts.length)
+    (h : modelGet (absDB norm g) q m = .ok r) :
+    DatabaseImpl.get translatedExt g q m = .ok r :=
+  db_get_closed norm g q m r hg hts h
+
+theorem model_get_is_the_models_step (s : State) (q : Query) (m : Option String) :
+    (s.step (.get q m)).2 = State.outOf (modelGet s.readOp q m) (fun p => .point p) :=
+  model_get_is_step s q m
 
 end TinyFlux.Props.C01
